@@ -372,6 +372,7 @@ func runC08(c *Ctx) {
 	if checkModelOptionSettersVerbatim(c, "names.option-setters-verbatim") < 3 {
 		c.fail("names.option-setters-verbatim", "pkg/model:setters", "-", "expected at least 3 string option setters in pkg/model")
 	}
+	checkLabelVersionSwitch(c, "resolve.version-switch")
 }
 
 func types_ExprString(e ast.Expr) string { return exprString(e) }
